@@ -16,8 +16,21 @@ def facts():
         raise RuntimeError("C29.tgen: FAILED_ASSERT_SIGNAL not found in error_signals.sw")
     return int(m.group(1).replace("_", ""), 16)
 
-def gen_test(rng, idx):
-    kind = rng.choice(["pass", "pass", "revert", "revert", "assert", "panic", "pass_long"])
+SIGNALS = [0xffffffffffff0000, 0xffffffffffff0001, 0xffffffffffff0003, 0xffffffffffff0004, 0xffffffffffff0005, 0xffffffffffff0006]
+
+def gen_code(rng):
+    """boundary-biased revert codes: small, around 2^32, around 2^63, std error signals, max"""
+    return rng.choice([0, 1, 42, 2**32, 2**32 + 1, 2**63 - 1, 2**63, 2**63 + 5, 2**64 - 1, 2**64 - 2,
+                       rng.choice(SIGNALS), rng.randrange(2**64), rng.randrange(2**63, 2**64), (1 << rng.randrange(64))])
+
+def near_code(rng, code):
+    """a declared code that is close to, but different from, the actual one"""
+    c = rng.choice([code ^ 1, code ^ (1 << rng.randrange(64)), (code + 1) % 2**64, (code - 1) % 2**64,
+                    code & 0xFFFFFFFF, code & ~0xFFFF & (2**64 - 1), code >> 1, rng.choice(SIGNALS), 0, 42])
+    return c if c != code else (code + 2) % 2**64
+
+def gen_test(rng, idx, assert_signal=0xffffffffffff0004):
+    kind = rng.choice(["pass", "pass", "revert", "revert", "revert", "assert", "panic", "pass_long"])
     body = [("log", 1000 + idx)]
     for _ in range(rng.randint(0, 5 if kind != "pass_long" else 9)):
         a = rng.choice(["log", "write", "read", "read"])
@@ -26,19 +39,22 @@ def gen_test(rng, idx):
         else: body.append(("read", rng.randrange(NFIELDS)))
     code = None
     if kind == "revert":
-        code = rng.choice([0, 1, 42, 2**32, 2**64 - 1, rng.randrange(2**64)])
+        code = gen_code(rng)
         body.append(("revert", code))
-    elif kind == "assert": body.append(("assertfail",))
-    elif kind == "panic": body.append(("panic",))
+    elif kind == "assert":
+        code = assert_signal
+        body.append(("assertfail",))
+    elif kind == "panic":
+        code = 0
+        body.append(("panic",))
     if rng.random() < 0.3 and kind in ("revert", "assert", "panic"):
         body.append(("log", 7))      # dead code after the terminator
     c = rng.random()
-    if c < 0.4: cond = ("not",)
-    elif c < 0.65: cond = ("any",)
+    if c < 0.3: cond = ("not",)
+    elif c < 0.5: cond = ("any",)
     else:
-        # declared code: often the right one, sometimes off by one, sometimes 0
-        base = code if code is not None else 0
-        cond = ("code", rng.choice([base, base, (base + 1) % 2**64, 0, 42]))
+        base = code if code is not None else rng.choice([0, 42, 2**63])
+        cond = ("code", base if rng.random() < 0.45 else near_code(rng, base))
     return cond, body
 
 def sway_suite(init, tests):
@@ -95,11 +111,16 @@ def run(ctx):
     suites, dirs = [], []
     for k in range(nsuites):
         init = [ctx.rng.randrange(1, 2**63) for _ in range(NFIELDS)]
-        tests = [gen_test(ctx.rng, i) for i in range(ctx.rng.randint(3, 12))]
+        tests = [gen_test(ctx.rng, i, sig) for i in range(ctx.rng.randint(3, 12))]
         if k == 0:   # corpus: the shapes named in the property text
             tests = [(("not",), [("log", 1), ("write", 0, 9), ("read", 0)]), (("not",), [("read", 0)]),
                      (("any",), [("panic",)]), (("code", 42), [("revert", 42)]), (("code", 42), [("revert", 43)]),
-                     (("code", 0), [("panic",)]), (("not",), [("assertfail",)]), (("any",), [("log", 5)])]
+                     (("code", 0), [("panic",)]), (("not",), [("assertfail",)]), (("any",), [("log", 5)]),
+                     # declared and actual codes that differ only in low / only in high bits, error signals
+                     (("code", 0xffffffffffff0000), [("assertfail",)]), (("code", sig), [("assertfail",)]),
+                     (("code", 2**63 + 2), [("revert", 2**63 + 1)]), (("code", 2**63 + 1), [("revert", 2**63 + 1)]),
+                     (("code", 5), [("revert", 2**32 + 5)]), (("code", 2**64 - 1), [("revert", 2**64 - 2)]),
+                     (("code", 1), [("panic",)])]
         name = "c29s%03d" % k
         d = sway.write_pkg(base, name, {"main.sw": sway_suite(init, tests)}, entry="main.sw")
         suites.append((name, init, tests)); dirs.append(d)
